@@ -59,6 +59,7 @@ def run(ch, tier):
         for s_ in sp.states.values():
             s_.tinv = [(j, None if a is None else d0, None if i is None else d0) for j, a, i in s_.tinv]
             s_.tpost = [(j, d0) for j, a in s_.tpost]
+    plain = not skew and not bigint and not decimal
     scale = 1
     if bigint:
         # an integer tick counter far beyond 2**53: every duration of the chart is expressed in ticks (1/64 time unit)
@@ -106,6 +107,10 @@ def run(ch, tier):
         if op == 'advance':
             if decimal:
                 sim.clock.advance(ops.pick([0.1, 0.2, 0.3, 0.1, 0.4, 0.5]))
+            elif plain and ops.flag(1, 6):
+                # the clock goes backwards: the next step's time is what it then shows
+                sim.advance(-ops.pick([F(1), F(1, 2), F(3)]))
+                res.stats['fault_clock_moved_backwards_between_steps'] += 1
             else:
                 sim.advance(scale * ops.pick([F(1), F(0), TICK, F(1) - TICK, F(1) + TICK, F(1, 2), F(2), F(3), F(2) - TICK, F(50)]))
             continue
